@@ -13,6 +13,7 @@ import (
 	"io"
 	"log"
 	"os"
+	"runtime/debug"
 	"testing"
 
 	"verif/vk"
@@ -23,6 +24,7 @@ func TestCheck(t *testing.T) {
 	if os.Getenv("VERIF_VERBOSE") == "" {
 		log.SetOutput(io.Discard)
 	}
+	debug.SetGCPercent(400) // many tiny allocations per ReadAt; memory stays small
 	res := vk.New("C15")
 	res.Rule = "input-shape enumeration, no sampling: (writer) every length x data kind x source fragmentation of the stated grid, engineered contents found by a fixed-order search and verified with the real rollsum; distinct = distinct (length, kind, resulting chunk layout); (reader) every tree of the stated grammar x every (offset,length) ReadAt, sequential Read, Seek and ForeachChunk; distinct = distinct tree; (staticset) every member count 0..m^3+2 per threshold m; distinct = distinct static-set shape"
 	res.Assumptions = []string{
